@@ -3,8 +3,8 @@
 
    op   : what a caller passes to the blob (L2): locations may be raw block indexes.
    top  : the same operation at tree / map level (L1, L0): locations are reference keys.
-   op_to_top translates an L2 operation in the state it is applied to (None = the raw index
-   does not name a live leaf although the block there decodes as a leaf: the stale-index class). *)
+   op_to_top translates an L2 operation in the state it is applied to (a raw index that does not name
+   a live leaf becomes the always-rejected location KBad). *)
 From ChiaV.Base Require Import Bytes.
 From ChiaV.Gen Require Import Dl.
 From ChiaV.Dl Require Import Format Map Tree Blob Abs.
@@ -48,19 +48,6 @@ Definition step0 (o : top) (m : kvmap) : bool * kvmap :=
   match apply0 o m with Some m' => (true, m') | None => (false, m) end.
 Fixpoint run0 (ops : list top) (m : kvmap) : kvmap :=
   match ops with [] => m | o :: r => run0 r (snd (step0 o m)) end.
-
-(* the known finding classes, decided on the plain map the history has produced so far *)
-Definition known_top (m : kvmap) (o : top) : bool :=
-  match o with
-  | TBatch items => match m_batch items m with None => true | Some _ => false end   (* F-C18-1 *)
-  | TUpsert k v h => m_mem k m && m_hash_of_other k h m                            (* F-C18-2 *)
-  | _ => false
-  end.
-Fixpoint known_hist (ops : list top) (m : kvmap) : bool :=
-  match ops with
-  | [] => false
-  | o :: r => known_top m o || known_hist r (snd (step0 o m))
-  end.
 
 Section HistH.
   Variable H : bytes -> bytes.
@@ -140,42 +127,23 @@ Section HistH.
     | _ => None
     end.
 
-  Definition op_to_top (s : mblob) (o : op) : option top :=
+  Definition op_to_top (s : mblob) (o : op) : top :=
     match o with
     | OInsert k v h loc =>
         match loc with
-        | RAuto => Some (TInsert k v h KAuto)
-        | RRoot => Some (TInsert k v h KRoot)
-        | RKey ref sd => Some (TInsert k v h (KKey ref sd))
+        | RAuto => TInsert k v h KAuto
+        | RRoot => TInsert k v h KRoot
+        | RKey ref sd => TInsert k v h (KKey ref sd)
         | RIndex i sd =>
             match live_leaf_key s i with
-            | Some ref => Some (TInsert k v h (KKey ref sd))
-            | None =>
-                match get_node s i with
-                | Ok (NLeaf _) => None                         (* stale leaf block: F-C18-4 *)
-                | _ => Some (TInsert k v h KBad)               (* internal node / out of range: rejected *)
-                end
+            | Some ref => TInsert k v h (KKey ref sd)
+            | None => TInsert k v h KBad          (* internal node, out of range, or a stale leaf block: rejected *)
             end
         end
-    | ODelete k => Some (TDelete k)
-    | OUpsert k v h => Some (TUpsert k v h)
-    | OBatch items => Some (TBatch items)
-    | OHash => Some THash
-    | OReload => Some TReload
-    end.
-
-  (* an L2 history is in a known class if, replayed on the model, some operation is a stale-index
-     insert or is in a known class of the plain map reached so far *)
-  Fixpoint known_hist2 (ops : list op) (s : mblob) (m : kvmap) : bool :=
-    match ops with
-    | [] => false
-    | o :: r =>
-        match op_to_top s o with
-        | None => true
-        | Some t =>
-            known_top m t ||
-            (let '(x, s') := step2 o s in
-             if stops x then false else known_hist2 r s' (snd (step0 t m)))
-        end
+    | ODelete k => TDelete k
+    | OUpsert k v h => TUpsert k v h
+    | OBatch items => TBatch items
+    | OHash => THash
+    | OReload => TReload
     end.
 End HistH.
